@@ -48,8 +48,10 @@ def build_job(model: Model, pkg: Path, jobdir: Path, extra_flags: List[str] = ()
     if miss:
         return {"ok": False, "stage": "includes", "errors": [miss]}
     flags = [*BASE_FLAGS, *(SAN_FLAGS if sanitize else []), *(WERR if werror else [])]
+    # compiler options the package's own build description asks for (after ours: they win, as they would in the real build)
+    extra_flags = [*extra_flags, *package_compile_options(pkg, model.backend)]
     cmd = [CXX, *flags, *extra_flags, "-I", str(model.inc), "-I", str(jobdir / "inc")]
-    if model.pch is not None and sanitize == model.sanitize:
+    if model.pch is not None and sanitize == model.sanitize and not package_compile_options(pkg, model.backend):   # a PCH only fits the options it was built with
         cmd += ["-include-pch", str(model.pch)]
     exe = jobdir / "job"
     cmd += [str(jobdir / "unity.cxx"), *libs, "-o", str(exe)]
@@ -59,6 +61,24 @@ def build_job(model: Model, pkg: Path, jobdir: Path, extra_flags: List[str] = ()
         stage = "link" if any("undefined" in l or "ld:" in l or "linker" in l for l in errs) and not any(": error:" in l for l in errs) else "compile"
         return {"ok": False, "stage": stage, "errors": [e[-300:] for e in errs[:6]] or [r.stderr[-400:]]}
     return {"ok": True, "exe": str(exe)}
+
+
+def package_compile_options(pkg: Path, backend: str) -> List[str]:
+    "options named in target_compile_options(...) of the ATLAS CMake file / in <flags CXXFLAGS=...> of the CMS BuildFile"
+    out: List[str] = []
+    if backend == "atlas":
+        f = pkg / "package_CMakeLists.txt"
+        if f.exists():
+            for m in re.finditer(r"target_compile_options\s*\(([^)]*)\)", f.read_text(errors="replace")):
+                out += [w for w in m.group(1).split() if w.startswith("-")]
+            for m in re.finditer(r"add_compile_options\s*\(([^)]*)\)", f.read_text(errors="replace")):
+                out += [w for w in m.group(1).split() if w.startswith("-")]
+    else:
+        f = pkg / "BuildFile.xml"
+        if f.exists():
+            for m in re.finditer(r"<flags\s+(?:CXXFLAGS|CPPFLAGS|CXXOPTIMIZEDFLAGS)\s*=\s*\"([^\"]*)\"", f.read_text(errors="replace")):
+                out += [w for w in m.group(1).split() if w.startswith("-")]
+    return out
 
 
 _CMATH = ("sin|cos|tan|asin|acos|atan|atan2|sinh|cosh|tanh|asinh|acosh|atanh|sqrt|cbrt|exp|exp2|expm1|log|log10|log2|log1p|pow|hypot|fmod|remainder|floor|ceil|trunc|round|rint|nearbyint|"
